@@ -12,7 +12,8 @@ FORM = [0]
 
 def one_case(V, E, form=None):
     from pyModelChecking.graph import DiGraph, compute_SCCs
-    # the node and edge collections are handed over in rotating iterable forms (lists, tuples, one-shot iterators, zip)
+    # the graph (V, E) is built in rotating ways: constructor with lists / tuples / one-shot iterators / zip / generators,
+    # or incrementally through add_node / add_edge
     FORM[0] += 1
     k = FORM[0] % 6 if form is None else form
     del FORM[1:]
@@ -23,10 +24,23 @@ def one_case(V, E, form=None):
         G = DiGraph(V=tuple(V), E=zip([a for a, _ in E], [b for _, b in E]))
     elif k == 5:
         G = DiGraph(V=list(V), E=(tuple(e) for e in list(E)))
+    elif k == 1:
+        G = DiGraph()                                   # incremental construction: nodes first, then the edges
+        for v in V:
+            G.add_node(v)
+        for a, b in E:
+            G.add_edge(a, b)
+    elif k == 2:
+        G = DiGraph()                                   # incremental construction: edges first (creating their ends), then the rest
+        for a, b in E:
+            G.add_edge(a, b)
+        for v in V:
+            if v not in G.nodes():
+                G.add_node(v)
     else:
         G = DiGraph(V=V, E=E)
     if set(G._next) != set(V) | {x for e in E for x in e} or {(a, b) for a, ds in G._next.items() for b in ds} != {tuple(e) for e in E}:
-        return G, ('err', 'other:the DiGraph built from (V, E) given as %s is not the graph (V, E)' % {3: 'iterators', 4: 'tuple / zip', 5: 'list / generator'}.get(k, 'lists')), True
+        return G, ('err', 'other:the DiGraph built from (V, E) given as %s is not the graph (V, E)' % {1: 'add_node then add_edge calls', 2: 'add_edge calls then add_node', 3: 'iterators', 4: 'tuple / zip', 5: 'list / generator'}.get(k, 'lists')), True
     before = repr(sorted((repr(k), sorted(map(repr, v))) for k, v in G._next.items()))
     r = call(lambda: [list(c) for c in compute_SCCs(G)])
     after = repr(sorted((repr(k), sorted(map(repr, v))) for k, v in G._next.items()))
